@@ -131,6 +131,7 @@ pub fn record_schema(a: &Args) {
     let max_elems = a.num("elems", 30) as usize;
     let damage_pct = a.num("damage", 8) as usize;
     let mut o = Out::create(&a.req("out"));
+    let mut renders = a.get("render-trace").map(|p| Out::create(&p));
     let mut calls = 0usize;
     let mut outcomes: std::collections::BTreeMap<String, usize> = Default::default();
     for s in 0..sessions {
@@ -151,6 +152,7 @@ pub fn record_schema(a: &Args) {
         let root = r.pick(&g.names).clone();
         let ndocs = 1 + r.below(4);
         let mut sess = Session::new();
+        let mut session_docs: Vec<String> = Vec::new();
         for _ in 0..ndocs {
             let mut bytes = match r.below(20) {
                 0 => elementless(&mut r),
@@ -175,7 +177,20 @@ pub fn record_schema(a: &Args) {
             o.line(&json!({"ev": "Call", "op": op, "events": obs.events, "result": result, "reader_error": err_json(&obs),
                            "doc": String::from_utf8_lossy(&bytes), "hex": hex(&bytes)}));
             calls += 1;
+            session_docs.push(String::from_utf8_lossy(&bytes).into_owned());
         }
+        // the rendering of the parsed tree (with whatever text content the documents had) for RenderTrace
+        if let (Some(t), Some(tree)) = (renders.as_mut(), sess.tree.as_ref()) {
+            let opts = vec![xml_schema_generator::Options::quick_xml_de(), {
+                let mut s2 = xml_schema_generator::Options::serde_xml_rs();
+                s2.sort = xml_schema_generator::SortBy::XmlName;
+                s2
+            }];
+            t.line(&crate::render::render_event(tree, &opts, json!({"docs": session_docs})));
+        }
+    }
+    if let Some(t) = renders {
+        t.finish();
     }
     let lines = o.finish();
     println!("{}", json!({"kind": "schema-trace", "events": lines, "calls": calls, "sessions": sessions, "outcomes": outcomes}));
